@@ -25,6 +25,10 @@ func (u *Util) format(f rune, val goja.Value, w *bytes.Buffer) bool {
 				if err != nil {
 					panic(err)
 				}
+				if res == nil {
+					// a native function put in place of JSON.stringify may return no value at all
+					res = goja.Undefined()
+				}
 				w.WriteString(res.String())
 			}
 		}
